@@ -247,6 +247,10 @@ def colored_render_to_stream(
                     stream.write(str(color))
 
             elif isinstance(sdoc, SAnnotationPop):
+                if not isinstance(sdoc.value, Token):
+                    # Only syntax tokens pushed a color.
+                    continue
+
                 try:
                     colorstack.pop()
                 except IndexError:
